@@ -208,7 +208,12 @@ impl BlockScope {
         let binders = candidates.iter().try_fold(
             im::HashMap::<VarName, DefId>::new(),
             |binders, candidate| {
-                candidate.binder().binders(&resolver.bitter).into_iter().try_fold(
+                // The binder map is hash-ordered; visit its definitions in allocation
+                // (source) order so the duplicate that gets reported is the same every run.
+                let mut contributed =
+                    candidate.binder().binders(&resolver.bitter).into_iter().collect::<Vec<_>>();
+                contributed.sort_by_key(|(_, definition)| *definition);
+                contributed.into_iter().try_fold(
                     binders,
                     |binders, (name, definition)| -> Result<_> {
                         if let Some(previous) = binders.get(&name) {
